@@ -65,11 +65,11 @@ macro_rules! restrict_contract {
         }
     };
 }
-// @obl props=C01,C02 tier=quick class=bounded fn=abe_policy::Dimension::restrict shape="hierarchy A<B<C, restrict to the lowest"
+// (not registered: beyond CBMC's reach, see native hierarchy__order_and_restriction) props=C01,C02 tier=quick class=bounded fn=abe_policy::Dimension::restrict shape="hierarchy A<B<C, restrict to the lowest"
 restrict_contract!(dim__restrict_hierarchy_lowest, "A", 1);
-// @obl props=C01,C02 tier=quick class=bounded fn=abe_policy::Dimension::restrict shape="hierarchy A<B<C, restrict to the middle"
+// (not registered: beyond CBMC's reach, see native hierarchy__order_and_restriction) props=C01,C02 tier=quick class=bounded fn=abe_policy::Dimension::restrict shape="hierarchy A<B<C, restrict to the middle"
 restrict_contract!(dim__restrict_hierarchy_middle, "B", 2);
-// @obl props=C01,C02 tier=quick class=bounded fn=abe_policy::Dimension::restrict shape="hierarchy A<B<C, restrict to the highest"
+// (not registered: beyond CBMC's reach, see native hierarchy__order_and_restriction) props=C01,C02 tier=quick class=bounded fn=abe_policy::Dimension::restrict shape="hierarchy A<B<C, restrict to the highest"
 restrict_contract!(dim__restrict_hierarchy_highest, "C", 3);
 
 // @obl props=C01,C02,C09 tier=quick class=bounded fn=abe_policy::Dimension::restrict shape="anarchy {X,Y,Z}: restrict to Y; unknown attribute in both kinds"
@@ -126,13 +126,13 @@ macro_rules! add_after_contract {
         }
     };
 }
-// @obl props=C03,C09 tier=quick class=bounded fn=abe_policy::Dimension::add_attribute shape="hierarchy A<B<C, new attribute lowest (after = None)"
+// (not registered: beyond CBMC's reach, see native hierarchy__order_and_restriction) props=C03,C09 tier=quick class=bounded fn=abe_policy::Dimension::add_attribute shape="hierarchy A<B<C, new attribute lowest (after = None)"
 add_after_contract!(dim__add_hierarchy_lowest, None, 0);
-// @obl props=C03,C09 tier=quick class=bounded fn=abe_policy::Dimension::add_attribute shape="hierarchy A<B<C, new attribute after A"
+// (not registered: beyond CBMC's reach, see native hierarchy__order_and_restriction) props=C03,C09 tier=quick class=bounded fn=abe_policy::Dimension::add_attribute shape="hierarchy A<B<C, new attribute after A"
 add_after_contract!(dim__add_hierarchy_after_first, Some("A"), 1);
-// @obl props=C03,C09 tier=quick class=bounded fn=abe_policy::Dimension::add_attribute shape="hierarchy A<B<C, new attribute after C (highest)"
+// (not registered: beyond CBMC's reach, see native hierarchy__order_and_restriction) props=C03,C09 tier=quick class=bounded fn=abe_policy::Dimension::add_attribute shape="hierarchy A<B<C, new attribute after C (highest)"
 add_after_contract!(dim__add_hierarchy_after_last, Some("C"), 3);
-// @obl props=C03,C09 tier=thorough class=bounded fn=abe_policy::Dimension::add_attribute shape="hierarchy A<B<C, new attribute after B"
+// (not registered: beyond CBMC's reach, see native hierarchy__order_and_restriction) props=C03,C09 tier=thorough class=bounded fn=abe_policy::Dimension::add_attribute shape="hierarchy A<B<C, new attribute after B"
 add_after_contract!(dim__add_hierarchy_after_middle, Some("B"), 2);
 
 // @obl props=C09,C10,C03 tier=quick class=bounded fn=abe_policy::Dimension::add_attribute shape="hierarchy A<B<C: duplicate name, unknown `after`; anarchy: duplicate name"
